@@ -449,6 +449,10 @@ func c03(c *core.Ctx) {
 	// what a handler set for ONE call reaches that call's caller: no object that outlives a call (a pooled or
 	// package-level transport stream, a field of the channel) holds header or trailer state (C01/R1)
 	c.Borrow("C01", map[string]string{"R1": "R11"}, c01)
+	// "request metadata arrives complete and unaltered": the in-process snapshot of the caller's outgoing metadata is
+	// taken before the entry point returns (C10/R3) — taken later, on the server goroutine, it shows what the caller
+	// has made of its map in the meantime
+	c.Borrow("C10", map[string]string{"R3": "R13"}, c10)
 
 }
 
